@@ -5,10 +5,11 @@
     (table 2-1, written independently in Spec/X86.v) reads back as exactly that base, index and
     signed displacement, consuming exactly the emitted bytes, whatever follows.  The special cases
     ([BP] with no displacement, disp8 versus disp16 at -128/127) are ordinary cases of the statement.
-    32-bit shapes (SIB) are not proved; they are covered by the exhaustive correspondence and by
-    evaluating the decoder on gosk's own output (three SIB defects are known findings). *)
+    32-bit addressing is proved for every single-base shape (all eight registers); base+index*scale
+    shapes are not proved: they are covered by the exhaustive correspondence and by evaluating the
+    decoder on gosk's own output (three SIB defects are known findings). *)
 From Coq Require Import List ZArith String Bool.
-From Gosk Require Import Base.Bytes Model.Ast Model.Asm Model.X86Enc Spec.X86 Lemmas.ModRMLemmas.
+From Gosk Require Import Base.Bytes Model.Ast Model.Asm Model.X86Enc Spec.X86 Lemmas.ModRMLemmas Lemmas.ModRM32Lemmas.
 Import ListNotations.
 Local Open Scope Z_scope.
 
@@ -18,6 +19,19 @@ Theorem C02_modrm16_exact : forall b i eb ei reg d rest,
             /\ decode_modrm 16 (modrm_bytes x ++ rest) = Some (reg, RmMem (ea16 eb ei d), zlen (modrm_bytes x)).
 Proof. exact modrm16_sound. Qed.
 Print Assumptions C02_modrm16_exact.
+
+(* 32-bit addressing, single base register: all eight bases (ESP goes through the SIB byte 24h, EBP gets its mandatory
+   disp8 0), every register field, every displacement in the int32 range *)
+Theorem C02_modrm32_base_disp0 : forall b nb reg rest, In (b, nb) r32n -> b <> "EBP"%string -> In reg regs8 ->
+  modrm32_ok (mk_mem b "" 0 0) (Some nb) None 1 reg 0 rest.
+Proof. exact modrm32_base_disp0. Qed.
+Theorem C02_modrm32_base_disp8 : forall b nb reg d rest, In (b, nb) r32n -> In reg regs8 -> -128 <= d <= 127 -> (d <> 0 \/ b = "EBP"%string) ->
+  modrm32_ok (mk_mem b "" 0 d) (Some nb) None 1 reg d rest.
+Proof. exact modrm32_base_disp8. Qed.
+Theorem C02_modrm32_base_disp32 : forall b nb reg d rest, In (b, nb) r32n -> In reg regs8 -> - 2 ^ 31 <= d < 2 ^ 31 -> ~ (-128 <= d <= 127) ->
+  modrm32_ok (mk_mem b "" 0 d) (Some nb) None 1 reg d rest.
+Proof. exact modrm32_base_disp32. Qed.
+Print Assumptions C02_modrm32_base_disp32.
 
 Example C02_bp_needs_disp : exists x, calc_modrm (mk_mem "BP" "" 0 0) M16 0 = Some x /\ modrm_bytes x = [70; 0].
 Proof. eexists. split; reflexivity. Qed.
